@@ -174,6 +174,7 @@ class FakeService:
         self.failures = 0
         self.hs_fail = 0            # budget of failed WebSocket negotiations on RE-connections
         self.hs_failed = 0
+        self.hs_fail_first = False  # the first connection's WebSocket negotiation may fail
         self.hs_slow = False        # the TCP connection and the WebSocket negotiation are separate events
         self._finishing = None      # list of stop waiters while a connection-lost notification runs
         self.name = "c%d" % len(world.services)
@@ -663,6 +664,9 @@ class World:
                         ev.append(("mb.connect", svc))
                     if svc.hs_slow:
                         ev.append(("mb.tcp", svc))
+                    if mf and svc.hs_fail_first and svc.nconn == 0 and svc.hs_failed == 0:
+                        # the very first TCP connection succeeds but its WebSocket negotiation fails
+                        ev.append(("mb.hsfail", svc))
                     if mf and svc.hs_fail > 0 and svc.nconn >= 1:
                         # TCP connects but the WebSocket negotiation fails: onClose without onOpen
                         ev.append(("mb.hsfail", svc))
@@ -766,7 +770,8 @@ class World:
                     x.callback(None)
         elif k == "mb.hsfail":
             svc = e[1]
-            svc.hs_fail -= 1
+            if svc.nconn >= 1:
+                svc.hs_fail -= 1
             svc.hs_failed += 1
             c = MailConn(self, svc, svc.nconn + 1000 * svc.hs_failed)
             c.alive = False
@@ -774,10 +779,15 @@ class World:
             for d, _ in waiters:          # ClientService saw a TCP connection
                 if not d.called:
                     d.callback(None)
+            svc._finishing = []
             try:
                 c.cli.onClose(False, 1006, "sim: websocket negotiation failed")
             except Exception:
                 log.err(None, "exception in onClose")
+            later, svc._finishing = svc._finishing, None
+            for x in later:               # a stopService() issued from onClose completes after it
+                if not x.called:
+                    x.callback(None)
         elif k == "mb.c2s":
             c = e[1]
             payload = c.c2s.pop(0)
